@@ -15,6 +15,9 @@ Keys == <<KOct, KRsa, KRsaPub, KEc>>
 Val(t, n, v, r) == [t |-> t, name |-> n, val |-> v, replace |-> r, jcls |-> NONE, jm |-> <<>>, jcanon |-> NONE]
 BM(k, w, v) == [op |-> "BMap", b |-> 0, k |-> k, which |-> w, v |-> v, map |-> 0]
 Off(c, n) == [op |-> "BOffset", b |-> 0, claim |-> c, secs |-> WOf(n)]
+OffW(c, w) == [op |-> "BOffset", b |-> 0, claim |-> c, secs |-> w]
+\* offsets that do not fit 32 bits: a century, and 2^32 + 5 (which a 32-bit cut turns into 5)
+Century == WBig(752, 1643392)
 Iat(e) == [op |-> "BIat", b |-> 0, enable |-> e]
 Prog1 == << [k |-> "set", which |-> "clm", v |-> Val("int", "cbc", WOf(1), 0), map |-> 0],
             [k |-> "set", which |-> "hdr", v |-> Val("str", "cbh", "v", 0), map |-> 0] >>
@@ -24,21 +27,22 @@ Core == { BM("set", "hdr", Val("str", "typ", "x", 0)), BM("set", "hdr", Val("str
           BM("set", "hdr", Val("int", "typ", WOf(7), 1)), BM("set", "hdr", Val("bool", "alg", 1, 1)),
           BM("set", "clm", Val("int", "iat", WOf(5), 1)), BM("set", "clm", Val("int", "exp", WOf(7), 0)),
           BM("set", "clm", Val("str", "sub", "s", 0)), BM("del", "clm", Val("int", "sub", W0, 0)),
-          Iat(0), Iat(1), Off("exp", 3600), Off("exp", 0), Off("nbf", 60), Off("nbf", -5),
+          Iat(0), Iat(1), Off("exp", 3600), OffW("exp", Century), OffW("nbf", WBig(1024, 5)), Off("exp", 0), Off("nbf", 60), Off("nbf", -5),
           BSetKeyOp("HS256", 0), BSetKeyOp("none", 1), BSetKeyOp("none", -1),
           BSetCbOp(Prog1), ClockOp(WAdd(T0, WOf(1000))) }
 Extra == { BM("set", "hdr", Val("str", "kid", "k", 0)), BM("del", "hdr", Val("int", "typ", W0, 0)), BM("del", "hdr", Val("int", NONE, W0, 0)),
            BM("set", "clm", Val("str", "nbf", "text", 0)), BM("set", "clm", Val("bool", "admin", 1, 0)),
-           Off("exp", 1), Off("exp", -5), Off("nbf", 0), Off("iat", 10),
+           Off("exp", 1), Off("exp", -5), OffW("exp", W2p31), OffW("nbf", Century), OffW("iat", WBig(1024, 5)), Off("nbf", 0), Off("iat", 10),
            BSetKeyOp("RS256", 2), BSetKeyOp("ES256", 3), BSetKeyOp("HS256", 1),
            BSetCbOp(Prog2), [op |-> "BSetCb", b |-> 0], ClockOp(T0), ClockOp(W0) }
 Alphabet == IF Quick THEN Core ELSE Core \cup Extra
 G == GenerateOp(0)
 RECURSIVE Seqs(_)
 Seqs(n) == IF n = 0 THEN {<<>>} ELSE { <<a, G>> \o t : a \in Alphabet, t \in Seqs(n - 1) }
-C10Scripts == { <<LoadOp(Keys), BNewOp, G>> \o q : q \in Seqs(MaxLen) }
-              \cup { <<LoadOp(Keys), BNewOp, a, b, G>> : a \in Core \cup Extra, b \in Core \cup Extra }
-MCSpec == ISpecWith(C10Scripts)
+\* families by first operation (MaxLen >= 1): see ISpecP in Interp.tla
+SeqFam == [a \in Alphabet |-> { <<LoadOp(Keys), BNewOp, G, a, G>> \o t : t \in Seqs(MaxLen - 1) }]
+PairFam == [a \in Core \cup Extra |-> { <<LoadOp(Keys), BNewOp, a, b, G>> : b \in Core \cup Extra }]
+MCSpec == ISpecP(script = <<LoadOp(Keys), BNewOp, G>> \/ InFam(SeqFam) \/ InFam(PairFam))
 
 \* on the specification: generate leaves the builder's configuration alone
 GenerateIsPure ==
